@@ -13,9 +13,9 @@
                               in this order (generated reload mode)
   causal d:<t>.<k>><t>.<k> … <call> …   does the workload write every record after the one it points to (dependency
                               table given by the d: tokens; absent = genesis)?  `true` | `false`
-  open <cls> <option> <version> <n>   a file whose option table / version row exist or not; an open() is killed after
-                              n statements of the schema script; then a complete open():
-                              `ok <tables> <option> <version>` | `error`
+  openok <cls> <option> <version> <ver> <col>   a complete open() of class 0 (identity) / 1 (wallet) on a file whose
+                              option table / version row / version value / upgraded column are as given:
+                              `ok <option> <version> <ver> <col>` (state afterwards) | `error`
 -/
 import Ipv8.Base.Proto
 import Ipv8.C19.Model
@@ -171,19 +171,20 @@ def step (_ : Unit) (toks : List String) : Unit × String :=
     | "reload" :: toks => do
       let ts ← toks.mapM parseTok
       pure (Proto.showNatList (reload Gen.reloadMode ts))
-    | ["open", cls, o, v, n] => do
+    | ["openok", cls, o, v, ver, col] => do
+      -- a complete open() on a file in the observed state: does the model say it raises?
       let o ← bit? o
       let v ← bit? v
-      let n ← n.toNat?
-      let script ← (match cls with
-        | "0" => some Gen.schemaIdentityDatabase
-        | "1" => some Gen.schemaAttestationsDB
+      let ver ← ver.toNat?
+      let col ← bit? col
+      let cfg ← (match cls with
+        | "0" => some Gen.openIdentityDatabase
+        | "1" => some Gen.openAttestationsDB
         | _ => none)
-      let have_ : List Nat := if o then (if cls == "0" then Gen.tablesIdentityDatabase else Gen.tablesAttestationsDB) else []
-      let s1 := openKilled Gen.versionHandlers script n { tables := have_, option := o, version := v }
-      if openOk Gen.versionHandlers script s1 then
-        let s2 := openEnd script s1
-        pure s!"ok {Proto.showNatList s2.tables} {if s2.option then 1 else 0} {if s2.version then 1 else 0}"
+      let s : OpenSt := { tables := [], option := o, version := v, ver := ver, col := col }
+      if openOk cfg s then
+        let e := openEnd cfg s
+        pure s!"ok {if e.option then 1 else 0} {if e.version then 1 else 0} {e.ver} {if e.col then 1 else 0}"
       else pure "error"
     | "causal" :: rest => do
       -- causal d:<t>.<k>>(<t>.<k>) … <call> <call> …
